@@ -12,7 +12,7 @@ EXPLANATION = (
     "(R2) ACCUMULATE - a byte accumulator grows only by len_utf8 of the scanned character, a UTF-16 column only by "
     "len_utf16, a line counter only by one on the '\\n' edge, a code-point counter only by one per character. "
     "Exactness, clamping and the round trip are value-level and are not decided.")
-EXPLANATION += ' Further clauses: (R3) CLAMP, (R4) RANGE-ENDS, (R5) SAME-TEXT - a span is converted with the text of its own document, change batches in order; (R6) SAME-VERSION (shared C15.R1/R6). (R7) LOADER-TEXT (shared C11.R1); R6 also shares C15.R3. (R8) ENCODING - the announced position encoding is the constant UTF-16; (R9) LOCATION-PAIR - an edit is filed under the document its range was computed for. (R10) MONOTONE - the UTF-16 column counter is compared with the requested column by an ordering.'
+EXPLANATION += ' Further clauses: (R3) CLAMP, (R4) RANGE-ENDS, (R5) SAME-TEXT - a span is converted with the text of its own document, change batches in order; (R6) SAME-VERSION (shared C15.R1/R6). (R7) LOADER-TEXT (shared C11.R1); R6 also shares C15.R3. (R8) ENCODING - the announced position encoding is the constant UTF-16; (R9) LOCATION-PAIR - an edit is filed under the document its range was computed for. (R10) MONOTONE - the UTF-16 column counter is compared with the requested column by an ordering. (R11) DOC-KEY - a client document is keyed by the URI as sent; (R12) EOL-AGREE - both directions treat the same characters as line ends (one known finding).'
 TECHNIQUE = "static analysis: units (dimension) inference on MIR with declared signatures"
 
 SCOPE = [
@@ -426,7 +426,35 @@ def r11_doc_key(c, facts, rule='C16.R11'):
     c.floor(R, 'functions that key a client document', n, 7)
 
 
+def r12_eol_agree(c, facts, rule='C16.R12'):
+    """the two directions of the conversion must agree on what ends a line: a character that stops the column scan of
+    position_to_utf8 but counts as a column in utf8_to_position gives an offset whose position converts back to a
+    different offset"""
+    R = c.rule(rule, 'EOL-AGREE: position_to_utf8 and utf8_to_position treat the same characters as line ends')
+    sets = {}
+    for q in ('oal_client::lsp::unicode::position_to_utf8', 'oal_client::lsp::unicode::utf8_to_position'):
+        fn = c.anchor(R, q)
+        vals = set()
+        for g in [fn] + list(facts.closures_of(fn)):
+            if not g.mir:
+                continue
+            for b, blk in g.blocks():
+                for st in blk['stmts']:
+                    if st['s'] == 'assign' and st['rv']['r'] == 'binop' and st['rv'].get('op') in ('Eq', 'Ne'):
+                        for o in (st['rv'].get('a'), st['rv'].get('b')):
+                            if o and o.get('o') == 'const' and (o.get('ty') == 'char' or str(o.get('val')) in ('10', '13')) and str(o.get('val')) in ('10', '13', '133', '8232', '8233'):
+                                vals.add(int(o['val']))
+        sets[q.split('::')[-1]] = vals
+    c.floor(R, 'line-end characters recognised by position_to_utf8', len(sets.get('position_to_utf8', ())), 1)
+    a, b = sets.get('position_to_utf8', set()), sets.get('utf8_to_position', set())
+    if a != b:
+        c.bad(R, 'eol-sets-differ:%s' % ','.join(str(x) for x in sorted(a ^ b)), 'position_to_utf8 ends a line at %s but utf8_to_position at %s: for "a\\r\\nb" the offset 2 (between CR and LF, a character boundary) converts to (0, 2), which converts back to 1' % (sorted(a), sorted(b)), **{'position_to_utf8': sorted(a), 'utf8_to_position': sorted(b)})
+    else:
+        c.ok(R, {'line ends': sorted(a)})
+
+
 def run(c, facts):
+    c.run(r12_eol_agree, facts)
     c.run(r11_doc_key, facts)
     c.run(r10_monotone_column, facts)
     c.run(r8_encoding, facts)
